@@ -55,24 +55,35 @@ class Harness:
         self.weight = int(meta.get("weight", "1"))  # rough parallel-slot cost (1 = light)
 
 
+# property -> harness directories under incrate/ (default: the directory named like the property)
+DIRS = {}
+
+
+def dirs_of(prop):
+    return DIRS.get(prop, [prop])
+
+
 def scan_harnesses(prop):
     out = []
-    d = os.path.join(VERIF, "incrate", prop)
-    if not os.path.isdir(d):
-        return out
-    for fn in sorted(os.listdir(d)):
-        if not fn.endswith(".rs"):
+    for sub in dirs_of(prop):
+        d = os.path.join(VERIF, "incrate", sub)
+        if not os.path.isdir(d):
             continue
-        module = fn[:-3]
-        if module not in MODULES:
-            _die(f"harness file {fn}: unknown module")
-        text = open(os.path.join(d, fn)).read()
-        for m in re.finditer(r"//\s*@h\s+([^\n]*)\n", text):
-            meta = dict(kv.split("=", 1) for kv in m.group(1).split() if "=" in kv)
-            name = meta.get("name")
-            if not name or not re.search(r"\b%s\s*[(,]" % re.escape(name), text):
-                _die(f"{fn}: @h line without matching fn: {m.group(1)}")
-            out.append(Harness(prop, module, name, meta))
+        for fn in sorted(os.listdir(d)):
+            if not fn.endswith(".rs"):
+                continue
+            module = fn[:-3]
+            if module not in MODULES:
+                _die(f"harness file {fn}: unknown module")
+            text = open(os.path.join(d, fn)).read()
+            for m in re.finditer(r"//\s*@h\s+([^\n]*)\n", text):
+                meta = dict(kv.split("=", 1) for kv in m.group(1).split() if "=" in kv)
+                name = meta.get("name")
+                if not name or not re.search(r"\b%s\s*[(,]" % re.escape(name), text):
+                    _die(f"{fn}: @h line without matching fn: {m.group(1)}")
+                if "props" in meta and prop not in meta["props"].split(","):
+                    continue
+                out.append(Harness(prop, module, name, meta))
     names = [h.name for h in out]
     for a in names:
         for b in names:
@@ -90,7 +101,7 @@ def stage(prop, tag, seed):
     subprocess.check_call(["rsync", "-a", "--exclude", "target", "--exclude", ".git", REPO + "/", os.path.join(root, "repo") + "/"])
     for m in MODULES:
         parts = []
-        for sub in ("common", prop):
+        for sub in ["common"] + dirs_of(prop):
             p = os.path.join(VERIF, "incrate", sub, m + ".rs")
             if os.path.exists(p):
                 parts.append(f"// ---- {sub}/{m}.rs\n" + open(p).read())
@@ -114,6 +125,11 @@ def stage(prop, tag, seed):
     for m in MODELS:
         cfg.append('%s = { path = "%s/models/%s" }' % (m, VERIF, m))
     cfg += ["[env]", 'ASSETS_MANAGER_VERIF = "%s/verifroot"' % root, 'VERIF_SEED = "%d"' % seed]
+    cap = META.get(prop, {}).get("map_cap")
+    if isinstance(cap, dict):
+        cap = cap.get(tag)
+    if cap:
+        cfg.append('VERIF_MAP_CAP = "%d"' % cap)
     open(os.path.join(root, "repo", ".cargo", "config.toml"), "w").write("\n".join(cfg) + "\n")
     return root
 
@@ -262,8 +278,11 @@ def run_harness(root, h, logdir):
         real_fail = [c for c in failed if c not in unwind_fail and c not in incl_fail]
         unsat_covers = [c for c in covers if c["status"] != "SATISFIED"]
         if h.kind == "bounded_termination":
-            real_fail = real_fail + unwind_fail
-            unwind_fail = []
+            # a failed unwinding assertion inside the repository's own code is the violation
+            # (unbounded recursion / loop); one in the harness, a model or std only means the bound is too small
+            in_repo = [c for c in unwind_fail if c["loc"].startswith("src/")]
+            real_fail = real_fail + in_repo
+            unwind_fail = [c for c in unwind_fail if c not in in_repo]
         if h.kind == "must_panic":
             # every path must end in the crate's own panic `expect`; nothing else may fail,
             # and the code after the call must be unreachable
